@@ -264,7 +264,7 @@ Definition hline_step (h : nhdr) (k : nkey) (fields : list (list N)) : nclass + 
           | [_; a] =>
               if bytes_eqb (map upcase (cstr a)) txt_per_frequency
               then inr (mknh (n_ports h) (n_rows h) (n_columns h) (n_frequencies h) (n_params h) (n_fprec h) (n_dprec h) true (n_z0 h))
-              else if (p =? 0)%Z then inl NEBADMSG else inl NEBADMSG
+              else inl NEBADMSG                               (* 2 <> 1 + 2 * ports *)
           | _ =>
               if (Z.of_nat (length fields) =? 1 + 2 * p)%Z then
                 match z0_values (tl fields) with
